@@ -84,7 +84,7 @@ def snapshot(outdir):
     return snap
 
 
-def compile_all(idlc, main_arg, idir_arg, cwd, outdir, stale=None):
+def compile_all(idlc, main_arg, idir_arg, cwd, outdir, stale=None, env=None):
     """returns {backend: (rc, snapshot)}; stale = {backend: {file: text}}: files that already exist
     at the output location, longer than anything generated (outputs depend on the inputs only)"""
     res = {}
@@ -97,7 +97,7 @@ def compile_all(idlc, main_arg, idir_arg, cwd, outdir, stale=None):
             with open(os.path.join(od, fn), "w") as fh:
                 fh.write("// stale line left by an earlier, longer revision of this file\n" * 4000)
         o = od if lang in ("rust", "java") else os.path.join(od, "out.h")
-        r = scrape.idlc_run(idlc, main_arg, o, lang, skel, idirs=[idir_arg], cwd=cwd)
+        r = scrape.idlc_run(idlc, main_arg, o, lang, skel, idirs=[idir_arg], cwd=cwd, env=env)
         res[tag] = (r[0], snapshot(od), r[2][-200:])
     return res
 
@@ -184,10 +184,15 @@ def run(ctx):
         shutil.copytree(root, dotted)
         variants.append(("relocated-dotted", os.path.join(dotted, "src/main.idl"), os.path.join(dotted, "inc"), dotted))
         variants.append(("stale-outputs", A("src/main.idl"), A("inc"), root))
+        # another user, home directory, locale, time zone and log level: nothing of the environment reaches the output
+        variants.append(("other-environment", A("src/main.idl"), A("inc"), root))
+        other_env = dict(vlib.ENV, HOME="/nonexistent-home", USER="someone-else", LOGNAME="someone-else", LANG="de_DE.UTF-8", LC_ALL="tr_TR.UTF-8",
+                         TZ="Pacific/Kiritimati", RUST_LOG="trace", RUST_BACKTRACE="0", SOURCE_DATE_EPOCH="86400", TMPDIR=other, PWD="/somewhere/else",
+                         COLUMNS="40", NO_COLOR="1", HOSTNAME="another-host")
         ref, diffs, nruns = None, [], 0
         for name, m, i, cwd in variants:
             stale = {tag: {fn: "" for fn in ref[tag][1]} for tag in ref} if (name == "stale-outputs" and ref) else None
-            r = compile_all(ctx["idlc"], m, i, cwd, os.path.join(outs, name), stale=stale)
+            r = compile_all(ctx["idlc"], m, i, cwd, os.path.join(outs, name), stale=stale, env=(other_env if name == "other-environment" else None))
             nruns += len(r)
             if ref is None:
                 ref = r
